@@ -231,7 +231,7 @@ class Inliner:
             return None
         return h, mapping
 
-    def _instantiate(self, h, mapping, caller_returns=False):
+    def _instantiate(self, h, mapping, caller_returns=False, rename_override=None):
         fn, kind, cls, body = h
         _counter[0] += 1
         tag = '__inl%d' % _counter[0]
@@ -252,6 +252,8 @@ class Inliner:
             if isinstance(n, (ast.For, ast.comprehension)):
                 locals_.update(A.name_targets(n.target))
         rename = {l: l + tag for l in locals_ if l not in mapping}
+        if rename_override:
+            rename.update({k: v for k, v in rename_override.items() if k in rename})
         # parameters that are re-assigned inside the helper become locals too
         for p in list(subst):
             if p in locals_:
@@ -272,6 +274,21 @@ class Inliner:
             ast.fix_missing_locations(s)
         return pre, new_body
 
+    def _instantiate_named(self, h, mapping, names):
+        """instantiate the helper body renaming the given locals (also nested defs / import aliases) to chosen names"""
+        fn, kind, cls, body = h
+        pre, new_body = self._instantiate(h, mapping, rename_override=names)
+        # nested function definitions and import aliases are bindings too
+        for s_ in new_body:
+            for x in ast.walk(s_):
+                if isinstance(x, A.FUNC_TYPES) and x.name in names:
+                    x.name = names[x.name]
+                if isinstance(x, (ast.Import, ast.ImportFrom)):
+                    for al in x.names:
+                        if (al.asname or al.name) in names and '.' not in (al.asname or al.name):
+                            al.asname = names[al.asname or al.name]
+        return pre, new_body
+
     # ---------------------------------------------------------------- statement level
     def _inline_stmt(self, st):
         """returns replacement list or None"""
@@ -284,6 +301,35 @@ class Inliner:
         elif isinstance(st, ast.Assign) and len(st.targets) == 1 and isinstance(st.value, ast.Call) \
                 and isinstance(st.targets[0], (ast.Name, ast.Attribute)):
             call, mode = st.value, 'assign'
+        elif isinstance(st, ast.Assign) and len(st.targets) == 1 and isinstance(st.value, ast.Call) \
+                and isinstance(st.targets[0], ast.Tuple) and all(isinstance(e, ast.Name) for e in st.targets[0].elts):
+            # `a, b, c = helper(...)` where the helper ends in `return x, y, z` (its only return): the helper's locals
+            # x, y, z simply become a, b, c
+            m0 = self._match(st.value)
+            if m0 is not None and m0[0][0].name not in self.anywhere_returns:
+                hb = m0[0][3]
+                rets = [x for x in A.walk_stmts(hb) if isinstance(x, ast.Return)]
+                tg = [e.id for e in st.targets[0].elts]
+                if len(rets) == 1 and rets[0] is hb[-1] and isinstance(rets[0].value, ast.Tuple) \
+                        and len(rets[0].value.elts) == len(tg) and all(isinstance(e, ast.Name) for e in rets[0].value.elts) \
+                        and len({e.id for e in rets[0].value.elts}) == len(tg):
+                    hfn = m0[0][0]
+                    used_in_helper = {x.id for x in ast.walk(hfn) if isinstance(x, ast.Name)} | {
+                        x.name for x in ast.walk(hfn) if isinstance(x, A.FUNC_TYPES + (ast.ClassDef,))} | {
+                        al.asname or al.name for x in ast.walk(hfn) if isinstance(x, (ast.Import, ast.ImportFrom)) for al in x.names}
+                    rn = {}
+                    ok_ = True
+                    for r_, t_ in zip(rets[0].value.elts, tg):
+                        if t_ != r_.id and t_ in used_in_helper:
+                            ok_ = False
+                        rn[r_.id] = t_
+                    if ok_ and not (set(rn) & set(m0[1])):
+                        pre, body = self._instantiate_named(m0[0], m0[1], rn)
+                        out = pre + body[:-1]
+                        for s_ in out:
+                            ast.fix_missing_locations(s_)
+                        self.count += 1
+                        return out or [ast.copy_location(ast.Pass(), st)]
         if call is None:
             return None
         m = self._match(call)
@@ -451,18 +497,31 @@ def inline_aliases(fn):
 
 
 # ---------------------------------------------------------------- loop-append -> comprehension
-def _append_body(body, name):
-    """body of `for`: `name.append(e)` possibly below else-less `if c:` filters -> (e, [c...]) or None"""
+def _append_body(body, name, gens=None):
+    """body of `for`: `name.append(e)` possibly below else-less `if c:` filters and nested `for` loops
+    -> (e, ifs of the outermost generator, [further generators]) or None"""
     ifs = []
-    while len(body) == 1 and isinstance(body[0], ast.If) and not body[0].orelse:
-        ifs.append(body[0].test)
-        body = body[0].body
+    more = []
+    cur_ifs = ifs
+    while len(body) == 1:
+        st = body[0]
+        if isinstance(st, ast.If) and not st.orelse:
+            cur_ifs.append(st.test)
+            body = st.body
+        elif isinstance(st, ast.For) and not st.orelse:
+            g = ast.comprehension(target=st.target, iter=st.iter, ifs=[], is_async=0)
+            more.append(g)
+            cur_ifs = g.ifs
+            body = st.body
+        else:
+            break
     if len(body) == 1 and isinstance(body[0], ast.Expr) and isinstance(body[0].value, ast.Call) \
             and isinstance(body[0].value.func, ast.Attribute) and body[0].value.func.attr == 'append' \
             and A.is_name(body[0].value.func.value, name) and len(body[0].value.args) == 1 and not body[0].value.keywords \
             and not any(A.is_name(x, name) for x in ast.walk(body[0].value.args[0])) \
-            and not any(A.is_name(x, name) for c in ifs for x in ast.walk(c)):
-        return body[0].value.args[0], ifs
+            and not any(A.is_name(x, name) for c in ifs for x in ast.walk(c)) \
+            and not any(A.is_name(x, name) for g in more for x in ast.walk(g)):
+        return body[0].value.args[0], ifs, more
     return None
 
 
@@ -478,9 +537,9 @@ def loops_to_comprehensions(block):
                 (isinstance(st.value, ast.Call) and A.dotted(st.value.func) == 'list' and not st.value.args)) \
                 and isinstance(nxt, ast.For) and not nxt.orelse and _append_body(nxt.body, st.targets[0].id) is not None \
                 and not any(A.is_name(x, st.targets[0].id) for x in ast.walk(nxt.iter)):
-            elt_, ifs_ = _append_body(nxt.body, st.targets[0].id)
+            elt_, ifs_, more_ = _append_body(nxt.body, st.targets[0].id)
             comp = ast.ListComp(elt=elt_,
-                                generators=[ast.comprehension(target=nxt.target, iter=nxt.iter, ifs=ifs_, is_async=0)])
+                                generators=[ast.comprehension(target=nxt.target, iter=nxt.iter, ifs=ifs_, is_async=0)] + more_)
             new = ast.Assign(targets=st.targets, value=comp)
             ast.copy_location(new, nxt)
             ast.copy_location(comp, nxt)
@@ -849,14 +908,258 @@ def flatten_else_after_exit(tree):
     return done
 
 
+def fold_constant_ifs(tree):
+    """after a helper with a flag parameter was inlined its tests are constants: `if True: A else: B` -> A"""
+    done = 0
+
+    def const_truth(t):
+        if isinstance(t, ast.Constant):
+            return bool(t.value)
+        if isinstance(t, ast.UnaryOp) and isinstance(t.op, ast.Not):
+            r = const_truth(t.operand)
+            return None if r is None else not r
+        if isinstance(t, ast.Compare) and len(t.ops) == 1 and isinstance(t.left, ast.Constant) and isinstance(t.comparators[0], ast.Constant):
+            l_, r_ = t.left.value, t.comparators[0].value
+            if isinstance(t.ops[0], (ast.Is, ast.Eq)) and (l_ is None or r_ is None or isinstance(l_, bool) or isinstance(r_, bool)):
+                return l_ is r_
+            if isinstance(t.ops[0], (ast.IsNot, ast.NotEq)) and (l_ is None or r_ is None or isinstance(l_, bool) or isinstance(r_, bool)):
+                return l_ is not r_
+        return None
+
+    def fix(blk):
+        nonlocal done
+        out = []
+        for st in blk:
+            for field in ('body', 'orelse', 'finalbody'):
+                b_ = getattr(st, field, None)
+                if isinstance(b_, list) and b_ and isinstance(b_[0], ast.stmt):
+                    setattr(st, field, fix(b_) or [ast.copy_location(ast.Pass(), st)])
+            if isinstance(st, ast.Try):
+                for h in st.handlers:
+                    h.body = fix(h.body) or [ast.copy_location(ast.Pass(), st)]
+            if isinstance(st, ast.If):
+                r = const_truth(st.test)
+                if r is not None:
+                    out.extend(st.body if r else st.orelse)
+                    done += 1
+                    continue
+            out.append(st)
+        return out
+    tree.body = fix(tree.body)
+    return done
+
+
+def self_ifexp_to_if(tree):
+    """`t = a if c else t` -> `if c: t = a`;  `t = t if c else b` -> `if not c: t = b`  (t a plain name)"""
+    done = 0
+
+    def fix(blk):
+        nonlocal done
+        out = []
+        for st in blk:
+            for field in ('body', 'orelse', 'finalbody'):
+                b_ = getattr(st, field, None)
+                if isinstance(b_, list) and b_ and isinstance(b_[0], ast.stmt):
+                    setattr(st, field, fix(b_))
+            if isinstance(st, ast.Try):
+                for h in st.handlers:
+                    h.body = fix(h.body)
+            if isinstance(st, ast.Assign) and len(st.targets) == 1 and isinstance(st.targets[0], ast.Name) \
+                    and isinstance(st.value, ast.IfExp):
+                t = st.targets[0].id
+                v = st.value
+                new = None
+                if A.is_name(v.orelse, t) and not A.is_name(v.body, t):
+                    new = ast.If(test=v.test, body=[ast.Assign(targets=st.targets, value=v.body)], orelse=[])
+                elif A.is_name(v.body, t) and not A.is_name(v.orelse, t):
+                    new = ast.If(test=ast.UnaryOp(op=ast.Not(), operand=v.test),
+                                 body=[ast.Assign(targets=st.targets, value=v.orelse)], orelse=[])
+                if new is not None:
+                    ast.copy_location(new, st)
+                    ast.copy_location(new.body[0], st)
+                    ast.fix_missing_locations(new)
+                    out.append(new)
+                    done += 1
+                    continue
+            out.append(st)
+        return out
+    for fn in [n for n in ast.walk(tree) if isinstance(n, A.FUNC_TYPES)]:
+        fn.body = fix(fn.body)
+    return done
+
+
+def inline_partials(fn):
+    """`g = functools.partial(f, a, b)` (positional simple arguments only, g bound once and only ever called) ->
+    every `g(x...)` becomes `f(a, b, x...)`; the binding is removed"""
+    done = 0
+    for blk in _block_lists(fn):
+        for st in list(blk):
+            if not (isinstance(st, ast.Assign) and len(st.targets) == 1 and isinstance(st.targets[0], ast.Name)
+                    and isinstance(st.value, ast.Call) and (A.dotted(st.value.func) or '').split('.')[-1] == 'partial'
+                    and st.value.args and not st.value.keywords and all(_simple(a) for a in st.value.args)
+                    and not any(isinstance(a, ast.Starred) for a in st.value.args)):
+                continue
+            g = st.targets[0].id
+            stores = [x for x in ast.walk(fn) if isinstance(x, ast.Name) and x.id == g and isinstance(x.ctx, ast.Store)]
+            loads = [x for x in ast.walk(fn) if isinstance(x, ast.Name) and x.id == g and isinstance(x.ctx, ast.Load)]
+            calls = [x for x in ast.walk(fn) if isinstance(x, ast.Call) and A.is_name(x.func, g)]
+            if len(stores) != 1 or not calls or len(calls) != len(loads):
+                continue
+            # the bound arguments must still denote the same objects at the calls
+            bound_names = {n_.id for a in st.value.args for n_ in ast.walk(a) if isinstance(n_, ast.Name)}
+            rebinds = [x for x in ast.walk(fn) if isinstance(x, ast.Name) and x.id in bound_names and isinstance(x.ctx, ast.Store)
+                       and getattr(x, 'lineno', 0) > st.lineno]
+            if rebinds:
+                continue
+            f, pre = st.value.args[0], st.value.args[1:]
+            for c in calls:
+                c.func = A.clone(f)
+                c.args = [A.clone(a) for a in pre] + c.args
+            blk.remove(st)
+            if not blk:
+                blk.append(ast.copy_location(ast.Pass(), st))
+            done += 1
+    return done
+
+
+def rotate_priming_loops(tree):
+    """`x = E` ; `while T(x): BODY ; x = E`   ->   `while True: x = E ; if not T(x): break ; BODY`
+    (no `continue` in BODY, no else clause: the two loops perform the same sequence of evaluations)"""
+    done = 0
+    NEG = {ast.Is: ast.IsNot, ast.IsNot: ast.Is, ast.Eq: ast.NotEq, ast.NotEq: ast.Eq, ast.Lt: ast.GtE, ast.GtE: ast.Lt,
+           ast.Gt: ast.LtE, ast.LtE: ast.Gt, ast.In: ast.NotIn, ast.NotIn: ast.In}
+
+    def negate(t):
+        if isinstance(t, ast.UnaryOp) and isinstance(t.op, ast.Not):
+            return t.operand
+        if isinstance(t, ast.Compare) and len(t.ops) == 1 and type(t.ops[0]) in NEG:
+            return ast.Compare(left=t.left, ops=[NEG[type(t.ops[0])]()], comparators=t.comparators)
+        return ast.UnaryOp(op=ast.Not(), operand=t)
+
+    def fix(blk):
+        nonlocal done
+        out = []
+        i = 0
+        while i < len(blk):
+            st = blk[i]
+            nxt = blk[i + 1] if i + 1 < len(blk) else None
+            if isinstance(st, ast.Assign) and len(st.targets) == 1 and isinstance(st.targets[0], ast.Name) \
+                    and isinstance(nxt, ast.While) and not nxt.orelse and len(nxt.body) >= 2 \
+                    and isinstance(nxt.body[-1], ast.Assign) and ast.dump(nxt.body[-1].targets[0]) == ast.dump(st.targets[0]) \
+                    and ast.dump(nxt.body[-1].value) == ast.dump(st.value) \
+                    and any(A.is_name(x, st.targets[0].id) for x in ast.walk(nxt.test)) \
+                    and not any(isinstance(x, ast.Continue) for x in A.walk_stmts(nxt.body)):
+                brk = ast.If(test=negate(nxt.test), body=[ast.Break()], orelse=[])
+                new = ast.While(test=ast.Constant(value=True), body=[st, brk] + fix(nxt.body[:-1]), orelse=[])
+                ast.copy_location(new, nxt)
+                ast.copy_location(brk, nxt)
+                ast.copy_location(brk.body[0], nxt)
+                ast.fix_missing_locations(new)
+                out.append(new)
+                done += 1
+                i += 2
+                continue
+            for field in ('body', 'orelse', 'finalbody'):
+                b_ = getattr(st, field, None)
+                if isinstance(b_, list) and b_ and isinstance(b_[0], ast.stmt):
+                    setattr(st, field, fix(b_))
+            if isinstance(st, ast.Try):
+                for h in st.handlers:
+                    h.body = fix(h.body)
+            out.append(st)
+            i += 1
+        return out
+    for fn in [n for n in ast.walk(tree) if isinstance(n, A.FUNC_TYPES)]:
+        fn.body = fix(fn.body)
+    return done
+
+
+def tidy_after_inlining(tree):
+    """`x = x` is dropped; `if c: <nothing> else: B` -> `if not c: B`; `a, _ = E` (placeholders never read) -> `a = E[k]`"""
+    done = 0
+    NEG = {ast.Is: ast.IsNot, ast.IsNot: ast.Is, ast.Eq: ast.NotEq, ast.NotEq: ast.Eq, ast.Lt: ast.GtE, ast.GtE: ast.Lt,
+           ast.Gt: ast.LtE, ast.LtE: ast.Gt, ast.In: ast.NotIn, ast.NotIn: ast.In}
+
+    def negate(t):
+        if isinstance(t, ast.UnaryOp) and isinstance(t.op, ast.Not):
+            return t.operand
+        if isinstance(t, ast.Compare) and len(t.ops) == 1 and type(t.ops[0]) in NEG:
+            return ast.copy_location(ast.Compare(left=t.left, ops=[NEG[type(t.ops[0])]()], comparators=t.comparators), t)
+        return ast.copy_location(ast.UnaryOp(op=ast.Not(), operand=t), t)
+
+    def fix(blk, fn):
+        nonlocal done
+        out = []
+        for st in blk:
+            for field in ('body', 'orelse', 'finalbody'):
+                b_ = getattr(st, field, None)
+                if isinstance(b_, list) and b_ and isinstance(b_[0], ast.stmt) and not isinstance(st, A.FUNC_TYPES + (ast.ClassDef,)):
+                    nb = fix(b_, fn)
+                    if not nb and field == 'body':
+                        nb = [ast.copy_location(ast.Pass(), st)]
+                    setattr(st, field, nb)
+            if isinstance(st, ast.Try):
+                for h in st.handlers:
+                    h.body = fix(h.body, fn) or [ast.copy_location(ast.Pass(), st)]
+            if isinstance(st, ast.Assign) and len(st.targets) == 1 and isinstance(st.targets[0], ast.Name) \
+                    and A.is_name(st.value, st.targets[0].id):
+                done += 1
+                continue
+            if isinstance(st, ast.If) and st.orelse and all(isinstance(x, ast.Pass) for x in st.body):
+                st.test = negate(st.test)
+                st.body, st.orelse = st.orelse, []
+                done += 1
+            if isinstance(st, ast.Assign) and len(st.targets) == 1 and isinstance(st.targets[0], ast.Tuple) \
+                    and all(isinstance(e, ast.Name) for e in st.targets[0].elts) and not isinstance(st.value, ast.Tuple):
+                names = [e.id for e in st.targets[0].elts]
+                real = [k for k, n_ in enumerate(names) if not n_.startswith('_')]
+                if len(real) == 1 and len(names) >= 2 and fn is not None and not any(
+                        isinstance(x, ast.Name) and x.id.startswith('_') and x.id in names and isinstance(x.ctx, ast.Load)
+                        for x in ast.walk(fn)):
+                    k = real[0]
+                    new = ast.Assign(targets=[ast.Name(id=names[k], ctx=ast.Store())],
+                                     value=ast.Subscript(value=st.value, slice=ast.Constant(value=k), ctx=ast.Load()))
+                    ast.copy_location(new, st)
+                    ast.fix_missing_locations(new)
+                    out.append(new)
+                    done += 1
+                    continue
+            out.append(st)
+        return out
+    for fn in [n for n in ast.walk(tree) if isinstance(n, A.FUNC_TYPES)]:
+        fn.body = fix(fn.body, fn) or [ast.copy_location(ast.Pass(), fn)]
+    return done
+
+
+def merge_nested_ifs(tree):
+    """canonical form: `if a:` whose whole body is one else-less `if b: S` becomes `if a and b: S`"""
+    done = 0
+    for n in ast.walk(tree):
+        if isinstance(n, ast.If):
+            while not n.orelse and len(n.body) == 1 and isinstance(n.body[0], ast.If) and not n.body[0].orelse:
+                inner = n.body[0]
+                vals = (n.test.values if isinstance(n.test, ast.BoolOp) and isinstance(n.test.op, ast.And) else [n.test]) + (
+                    inner.test.values if isinstance(inner.test, ast.BoolOp) and isinstance(inner.test.op, ast.And) else [inner.test])
+                n.test = ast.copy_location(ast.BoolOp(op=ast.And(), values=vals), n.test)
+                n.body = inner.body
+                done += 1
+    return done
+
+
 def normalise(tree):
     """in-place normalisation of a module tree; returns statistics"""
     stats = {'helpers_inlined': 0, 'aliases_inlined': 0, 'loops_to_comprehensions': 0}
     stats['suppress_to_try'] = suppress_to_try(tree)
+    stats['self_ifexp_to_if'] = self_ifexp_to_if(tree)
+    stats['priming_loops_rotated'] = rotate_priming_loops(tree)
     stats['else_after_exit_flattened'] = flatten_else_after_exit(tree)
     stats['helpers_inlined'] = Inliner(tree).run()
+    stats['constant_ifs_folded'] = fold_constant_ifs(tree)
+    stats['tidied'] = tidy_after_inlining(tree)
+    stats['nested_ifs_merged'] = merge_nested_ifs(tree)
     stats['nested_closures_inlined'] = 0
     for fn in [n for n in ast.walk(tree) if isinstance(n, A.FUNC_TYPES)]:
+        stats['nested_closures_inlined'] += inline_partials(fn)
         stats['nested_closures_inlined'] += expand_nested_def_aliases(fn)
         stats['nested_closures_inlined'] += inline_nested_closures(fn)
         stats['nested_closures_inlined'] += inline_nested_procedures(fn)
@@ -868,4 +1171,25 @@ def normalise(tree):
     for fn in [n for n in ast.walk(tree) if isinstance(n, A.FUNC_TYPES)]:
         stats['single_use_locals_inlined'] += inline_single_use_locals(fn)
     ast.fix_missing_locations(tree)
+    renumber(tree)
     return stats
+
+
+def renumber(tree):
+    """After inlining, the `lineno` of a moved statement is the line it has in the helper it came from, so line numbers
+    no longer say which statement comes first. Every node keeps its real source line in `_src_line` (used for reports)
+    and gets a strictly increasing `lineno` in document order (used by rules that ask "is A before B")."""
+    counter = [0]
+
+    def visit(node):
+        if hasattr(node, 'lineno'):
+            if not hasattr(node, '_src_line'):
+                node._src_line = node.lineno
+            counter[0] += 1
+            node.lineno = counter[0]
+        last = counter[0]
+        for child in ast.iter_child_nodes(node):
+            visit(child)
+        if hasattr(node, 'end_lineno'):
+            node.end_lineno = max(counter[0], getattr(node, 'lineno', counter[0]))
+    visit(tree)
